@@ -87,7 +87,7 @@ def to_element(x):
 def reparse(el) -> "etree._Element":
     """Serialise an lxml element standalone and parse it again: nothing of the
     original tree object survives (our 'durable state' reader)."""
-    return etree.fromstring(etree.tostring(el))
+    return etree.fromstring(etree.tostring(el, with_tail=False))
 
 
 # --------------------------------------------------------------------------
